@@ -142,6 +142,17 @@ theorem valueOK_attribute_facts {name : Nat} {v : Str} (h : valueOK env (.attrib
     · rw [hid] at h3; cases h3
     · exact h3
 
+/-- The value of an attribute whose EXPANDED name (as strings) is `xml:id` is ID-normalised already
+    (`valueOK`): whether the builder applies the ID normalisation by the name as written or by the
+    expanded name, it changes nothing on the values the serialiser wrote. -/
+theorem attr_id_normalized (he : EnvFacts env) {a : Nat × Str} (hv : valueOK env (.attribute a.1 a.2) = true)
+    (hns : env.nsOfName a.1 < env.namespaces.length)
+    (hx : env.namespaceStr (env.nsOfName a.1) = xmlNsUri ∧ env.localName a.1 = ['i', 'd']) :
+    normalizeXmlId a.2 = a.2 := by
+  have h1 : env.nsOfName a.1 = Env.xmlNamespace :=
+    he.namespaceStr_inj hns he.xmlNamespace_lt (by rw [hx.1, he.ns1])
+  exact (valueOK_attribute_facts hv).2.2 (by simp [isXmlIdName, h1, hx.2])
+
 /-- One spelled attribute: an ordinary attribute denoting (expanded name, value). -/
 theorem spellAttr_facts (he : EnvFacts env) {s : FStack} {fs : Frames} {sc : Scope}
     (hrel : ScopeRel env s fs sc) {a : Nat × Str} (hv : valueOK env (.attribute a.1 a.2) = true)
